@@ -106,6 +106,10 @@ let () =
                       fi_sa_reg = iz 13;
                       (* optional 17th field = 1: tree variant with fixes/C07-a64-sa-register.patch (probed by the check) *)
                       fi_sa_fix = (Array.length a > 16 && ii 16 = 1) } in
+           (* optional 18th field = 1: tree with fixes/C07-a64-refuse-unrealisable-frames.patch: such frames are refused by finalize *)
+           if Array.length a > 17 && ii 17 = 1 && arch = Frame.A64 && not (Frame.a64_realisable fi) then
+             print_endline "F 0 I 0 0 0 0 0 0 0 0 0 0 0 0 0 0 0 0 0 0 L ?3"
+           else
            let o = Frame.finalize fi in
            let b2 b = if b then "1" else "0" in
            let (pl, pok) = Frame.prolog fi o in
